@@ -57,6 +57,21 @@ class SymChars:
     def is_empty_model(self, ctx):
         return len(self.chars) == 0
 
+    def eq_model(self, ctx, other):
+        other = as_str(ctx, other)
+        if isinstance(other, StrV):
+            if len(other.s) != len(self.chars):
+                return False
+            return b_and(*[(c.v == ord(o)) if isinstance(c, CI) else simp(bv(c) == ord(o)) for c, o in zip(self.chars, other.s)])
+        if isinstance(other, SymChars):
+            if len(other.chars) != len(self.chars):
+                return False
+            return b_and(*[simp(bv(a) == bv(b)) for a, b in zip(self.chars, other.chars)])
+        raise Unsupported('symbolic string compared with %r' % (other,))
+
+    def len_model(self, ctx):
+        return CI(len(self.chars), 64)
+
     def bytes_model(self, ctx):
         # the FEN alphabet is ASCII (assumed by the harness preconditions): one byte per character
         return IterV(tuple((True, c.v & 0xff if False else (CI(c.v, 8) if isinstance(c, CI) else z3.Extract(7, 0, bv(c)))) for c in self.chars))
@@ -459,7 +474,13 @@ def turn_case(run):
 def castle_case(run, L):
     name = 'CASTLE/len%d' % L
     cs = [z3.BitVec('chr%d' % i, 32) for i in range(L)]
-    pre = [z3.Or(*[c == ord(x) for x in 'KQkq-']) for c in cs]
+    # valid castling fields: "-" or a non-empty subsequence of "KQkq" (standard order, no repetition)
+    rank = lambda c: z3.If(c == ord('K'), 0, z3.If(c == ord('Q'), 1, z3.If(c == ord('k'), 2, 3)))
+    letters = [z3.Or(*[c == ord(x) for x in 'KQkq']) for c in cs]
+    if L == 1:
+        pre = [z3.Or(cs[0] == ord('-'), letters[0])]
+    else:
+        pre = letters + [rank(cs[i]) < rank(cs[i + 1]) for i in range(L - 1)]
     ex, bv0, P0, r = field_reader(run, 'castling_rights', cs, pre)
     out, st2 = r
     po = builder_parts(run.prog, out)
